@@ -523,6 +523,8 @@ impl Subscription {
             .read_partition(partition_id, *from_sequence, IterDirection::Forward)
             .await?;
         'iter: while let Some(commits) = iter.next_batch(DEFAULT_BATCH_SIZE).await? {
+            #[cfg(sierradb_verif)]
+            crate::verif::point("sub.history.batch", &[]);
             for commit in commits {
                 let Some(first_partition_sequence) = commit.first_partition_sequence() else {
                     continue;
@@ -684,6 +686,8 @@ impl Subscription {
             )
             .await?;
         while let Some(commits) = iter.next_batch(DEFAULT_BATCH_SIZE).await? {
+            #[cfg(sierradb_verif)]
+            crate::verif::point("sub.history.batch", &[]);
             for commit in commits {
                 let Some(first_partition_sequence) = commit.first_partition_sequence() else {
                     continue;
